@@ -535,6 +535,29 @@ def compile_basic_annotation(compiler, expr, root, target, ann):
     return compile_assign(compiler, ann, target, None)
 
 
+def can_rename_temp_variables(compiler, result, target):
+    """Check whether `result`'s temporary variables can be renamed to
+    `target` instead of assigning the temporary to `target` afterwards.
+    This requires that the value of `result` is just the temporary (and not
+    a larger expression that contains it), and that the statements of
+    `result` don't otherwise refer to `target`, which assignments to the
+    renamed temporary would clobber."""
+    temps = result.temp_variables
+    if not any(result._expr is v for v in temps):
+        return False
+    if not any(isinstance(v, ast.Name) and isinstance(v.ctx, ast.Store) for v in temps):
+        return True
+    probe = asty.Name(target, id=mangle(compiler._nonconst(target)), ctx=ast.Store())
+    compiler.scope.assign(probe)
+    return not any(
+        isinstance(node, ast.Name)
+        and node.id == probe.id
+        and not any(node is v for v in temps)
+        for stmt in result.stmts
+        for node in ast.walk(stmt)
+    )
+
+
 def compile_assign(
     compiler, ann, target, value, *, is_assignment_expr=False, chained=False, let_scope=None
 ):
@@ -550,7 +573,11 @@ def compile_assign(
         if let_scope:
             target = let_scope.add(target)
 
-    if result.temp_variables and isinstance(target, Symbol):
+    if (
+        result.temp_variables
+        and isinstance(target, Symbol)
+        and can_rename_temp_variables(compiler, result, target)
+    ):
         result.rename(compiler, compiler._nonconst(target))
         if not is_assignment_expr:
             # Throw away .expr to ensure that (setv ...) returns None.
